@@ -212,7 +212,7 @@ def _has_foreign_side_effect(stmt):
     for call in re.findall(r'([A-Za-z_][\w:]*)\s*\(', s):
         base = call.split('::')[-1]
         if base not in ('type_name', 'range', 'rflush', 'spec_name', 'indent',
-                        '_', 'size', 'begin', 'end', 'arity'):
+                        '_', 'size', 'begin', 'end', 'arity', 'front', 'back', 'data', 'empty'):
             return True
     return False
 
@@ -385,3 +385,72 @@ def weave(ex, loops=None, before_loop=None, at_start='', at_end='',
 
 def norm_ws(s):
     return re.sub(r'\s+', ' ', s).strip()
+
+
+# ----------------------------------------------------------------------------
+# fragment helpers and structured rewrite rules
+
+def fragment_in_function(rel, within, start_regex, kind, open_regex=None):
+    """A fragment of function `within` starting at the first match of
+    start_regex.
+      kind='if-else'  : start_regex matches `if (...) {`; the fragment is the
+                        whole if / else statement.
+      kind='to-block' : the fragment extends to the end of the block opened by
+                        the first match of open_regex after the start."""
+    fn = find_function(rel, within)
+    src = fn.body
+    base_line = fn.line + fn.header.count('\n')
+    ms = re.search(start_regex, src, re.S)
+    if not ms:
+        raise ExtractionBroken("fragment start /%s/ not found in %s" % (start_regex, fn.where()))
+    s = ms.start()
+    if kind == 'if-else':
+        ob = ms.end() - 1
+        if src[ob] != '{':
+            raise ExtractionBroken("if-else fragment: start regex must end at '{'")
+        e = match_close(src, ob) + 1
+        m2 = re.compile(r'\s*else\s*(if\s*\([^{]*\)\s*)?\{', re.S).match(src, e)
+        while m2:
+            e = match_close(src, m2.end() - 1) + 1
+            m2 = re.compile(r'\s*else\s*(if\s*\([^{]*\)\s*)?\{', re.S).match(src, e)
+    elif kind == 'to-block':
+        mo = re.compile(open_regex, re.S).search(src, ms.end())
+        if not mo or src[mo.end() - 1] != '{':
+            raise ExtractionBroken("fragment block /%s/ not found in %s" % (open_regex, fn.where()))
+        e = match_close(src, mo.end() - 1) + 1
+    else:
+        raise ValueError(kind)
+    return Extracted(rel, '', src[s:e], base_line + src.count('\n', 0, s),
+                     base_line + src.count('\n', 0, e))
+
+
+def range_for_by_ref(elem_type, min_count=0):
+    """`for ([const] auto& x : V) { ... }`  ->  index loop over the shim vector
+    V with `x` an lvalue macro for the element, undefined again after the
+    loop's closing brace ([stmt.ranged])."""
+    rx = re.compile(r'for\s*\(\s*(const\s+)?auto&\s+(\w+)\s*:\s*([\w.>-]+)\s*\)\s*\{')
+
+    def rule(ex, body):
+        n = 0
+        pos = 0
+        while True:
+            m = rx.search(body, pos)
+            if not m:
+                break
+            ob = m.end() - 1
+            cb = match_close(body, ob)
+            x, v = m.group(2), m.group(3)
+            const = m.group(1) or ''
+            head = ('for (size_t yv_i_%s = 0; yv_i_%s < VEC_SIZE(%s); ++yv_i_%s) {\n'
+                    '%s%s *const %s_p = &%s.data[yv_i_%s];\n#define %s (*%s_p)\n'
+                    % (x, x, v, x, const, elem_type, x, v, x, x, x))
+            body = (body[:m.start()] + head + body[ob + 1:cb] + '}\n#undef %s\n' % x
+                    + body[cb + 1:])
+            pos = m.start() + len(head)
+            n += 1
+        if n < min_count:
+            raise ExtractionBroken("range-for-by-ref fired %d times (expected >= %d) in %s"
+                                   % (n, min_count, ex.where()))
+        ex.rules_fired.append(('range-for-by-reference', n))
+        return body
+    return rule
